@@ -50,6 +50,13 @@ InjectOK ==
               /\ Chk("bounded", ns.base <= ObsTriple.lower /\ ObsTriple.upper <= ns.base + TotalWeight)
               /\ Chk("pred_is_winners", ObsTriple.pred = ns.base + SumC(LAMBDA c : ns.w[c] * Ind(PM(c) > 0)))
 
+\* the sigmoid threshold (agg_model_hard_threshold = FALSE): the summary is a real number (hundredths); the property
+\* states the ordering for every mode, the integer clauses only for the hard threshold
+SigmoidOK ==
+  T.kind = "sigmoid" =>
+    /\ Chk("sigmoid_summary_completed", T.obs.kind = "ok")
+    /\ T.obs.kind = "ok" => Chk("sigmoid_ordered", T.obs.lower <= T.obs.pred /\ T.obs.pred <= T.obs.upper)
+
 \* client runs: T.c = [names, w, pred (thousandths, as reported in the state table), lhs, rhs, stop, base, triples]
 CN == DOMAIN T.c.pred
 SumN(f(_)) == FoldSet(LAMBDA c, acc : acc + f(c), 0, CN)
